@@ -60,7 +60,9 @@ CHECKS['C08'] = dict(
     technique='Lean 4 theorems (outcome of parse fixed by the spec match; no IndexError because all spans and positions stay inside the input, incl. lookahead/Backtrack) on top of the C01 refinement + API-level differential correspondence over every entry point x offset x fullparse',
     text=('Proof: C08_match_outcome (match => value or PartialParseError(value, end) exactly by fullparse/end-of-input, finalisation never raises: peg_bounded shows every span and position of a parsed value lies in [0, len] for all programs) '
           'and C08_failure_outcome (no match => ParseError, index in [pos, len]) for every locally sound flag table. Tie: module-level parse, R.parse and C.parse of every rule/class of generated grammars on all short inputs, every start '
-          'offset and both fullparse values, compared with the Lean parseApi(gen) and with the spec outcome. PARTIAL: the offset-shift law and parameterised-class entry points are checked on the implementation only (metamorphic).'),
+          'offset and both fullparse values, compared with the Lean parseApi(gen) and with the spec outcome; the shift law also metamorphically on the implementation. '
+          'C08_shift_law / C08_shift_law_generated_code: for programs without Backtrack and a shift-invariant matcher, peg (pre ++ text) from pre.length + p = peg text from p with end position and all spans moved by pre.length (an equation of Option values, all constructs incl. operator tables), and the code model follows. '
+          'PARTIAL: shift-invariance of the regex matcher (no anchors) is a hypothesis; parameterised-class entry points are checked on the implementation only.'),
     note='Trusted as for C01; _finalize_parse_info is modelled by hand (Sourcer/Api.lean: finalize, parseApi) and tied by the correspondence.',
     design='7 (C08)')
 
@@ -164,36 +166,14 @@ CHECKS['C19'] = dict(
     design='7 (C19), 4.1 T3')
 
 CHECKS['C20'] = dict(
-    technique='renaming metamorphic correspondence against the real generator with adversarial name lists derived from the emitted module and the runtime text on every run; Lean theorems C01/C10 fix the reference behaviour, in whose model identifiers of generated code do not exist (rules are indices, class/field names opaque labels)',
-    text=('PARTIAL. The Lean model has no Python identifiers: rules are indices and class/field names are labels that gen/peg only copy into results, so the reference behaviour is name-independent by construction '
-          '(C01_codegen_refines_peg, C10_span_exact). What can break the property lives in the emitted Python text, and is decided by correspondence: grammar families with rules, classes, templates, fields, parameters and let variables; '
+    technique='Lean 4 theorem that the meaning is equivariant under renaming of classes and fields (all constructs incl. operator tables); rules/parameters/let variables are positions in the models, so renaming them is the identity by construction; the Python identifiers of the generated text are decided by a renaming metamorphic correspondence against the real generator with adversarial name lists derived from the emitted module and the runtime text on every run',
+    text=('Proof: C20_renaming_changes_only_names (for all renamings c, f of classes and fields that leave the API names alone, every program, input, fuel, expression, position: peg (renamed program) (renamed e) = (peg program e).map rename - same definedness, outcome class and positions, value renamed), '
+          'C20_injective_renaming_keeps_classes_apart. PARTIAL: what can break the property lives in the emitted Python text (temporaries, helpers, builtins) and has no counterpart in the model; it is decided by correspondence: grammar families with rules, classes, templates, fields, parameters and let variables; '
           'every slot is renamed, one at a time and all at once (injectively), into random identifiers, names shaped like the temporaries the emitted module really uses, names of locals of generated/runtime functions, '
           'builtins read by the runtime text or the generated functions, and expression-constructor names; values (names mapped back), positions and error classes must equal those under the neutral naming. '
           'Open known findings: names equal to a builtin that the runtime/generated code reads (module level and local).'),
     note='Trusted as for C01; the name lists are derived by ast from the emitted source and the runtime text.',
-    design='7 (C20)')
-
-CHECKS['C05'] = dict(
-    technique='Lean 4 proof that the flat-locals implementation model (xgen) refines the lexical-environment specification (xpeg) on all well-scoped programs without shadowing, for every interpretation of inline Python; hand-written model tied to the generator by differential correspondence (outcomes, and free names of every argument expression against the real freevars())',
-    text=('Proof: C05_flat_locals_realise_lexical_scoping (simulation xgen ~ xpeg for every expression, scope, locals and environment that agree; by induction on fuel with invariants for closures captured by value), '
-          'C05_rule_outcome, C05_where_apply_class (the where / |> / class-body clauses), C05_shadowing_breaks_it (witness of the known finding: with shadowing model and implementation both return the inner value). '
-          'Tie: typed random programs and hand-written families for every clause; every case is decided three ways: real = xgen (correspondence of the implementation model), real = xpeg (the property), '
-          'sorted(expr.freevars()) of every argument expression of the real prepared objects = captured e of the model. '
-          'PARTIAL: positions/restores are those of the core model (C01); error positions are not compared here; the repetition count is evaluated once in the model.'),
-    note='Trusted: Lean kernel; harness/envgen.py (renderer + wire encoder), harness/envrun.py; the fixed inline-Python repertoire of the driver (EnvWire.pyf) matches the Python text of envgen.py_text.',
-    design='7 (C05), 3.6')
-
-CHECKS['C06'] = dict(
-    technique='Lean 4 proof that a template call in the implementation model (helper functions with captured sorted free names, _ParseFunction frames) has the outcome of the body with parameters denoting their arguments (closures of expression + call-site environment) and leaves the caller untouched; differential correspondence incl. call-vs-textual-expansion on the real generator',
-    text=('Proof: C06_call_is_body_with_arguments (for every well-scoped program, call site, locals and environment that agree: xgen(call) = xpeg(body in the parameter environment), caller locals unchanged), '
-          'C06_arguments_bind_parameters (positional in order, keywords by name, exactly the parameters), on top of the simulation theorem of C05; '
-          'C06_call_means_its_expansion_closed_arguments (textual reading: if T(args) has an outcome, the body with every parameter replaced by the argument expression - subst, binders of the same name end the replacement - has the same outcome in any environment and with any larger fuel; '
-          'one step-indexed simulation over closures compared by behaviour, Proofs/EnvSubst.lean; closed arguments only, open arguments are covered semantically by the first theorem), C06_more_fuel_same_outcome. '
-          'Tie: hand-written families (same template at one position with different arguments, nesting, keywords in any order, values of every type incl. unhashable, literals as value and parser, arguments mentioning call-site names passed on, recursion, class templates) '
-          'and typed random programs, with and without grammar header; real = xgen, real = xpeg, real(program) = real(textual expansion of its non-class template calls), and the harness expansion = Lean subst for every call with closed parser arguments. '
-          'PARTIAL: the memo of the trampoline is outside the names layer (C07 covers it for a correct key equality); the known finding equal-values-share-memo is exactly where the key equality is too coarse.'),
-    note='Trusted as for C05; harness/envgen.expand (textual expansion, refuses call sites that would need renaming).',
-    design='7 (C06), 3.6')
+    design='0.2, 7 (C20)')
 
 NOT_YET = {
 }
